@@ -491,7 +491,8 @@ func execute(r *core.Run, c *Case) {
 	keep := append([]byte{}, raw...)
 	other, _ := signature.NewEnvelope(c.MT)
 	req2 := &signature.SignRequest{Payload: signature.Payload{ContentType: "text/plain", Content: []byte(`{"later":"request ` + strings.Repeat("x", len(c.Payload)%97) + `"}`)},
-		Signer: signer, SigningTime: st.Add(time.Hour), SigningAgent: "later/agent", SigningScheme: signature.SigningScheme(c.Scheme)}
+		Signer: signer, SigningTime: st.Add(time.Hour), SigningAgent: "later/agent", SigningScheme: signature.SigningScheme(c.Scheme),
+		Expiry: st.Add(48 * time.Hour), ExtendedSignedAttributes: []signature.Attribute{{Key: "io.later.one", Critical: true, Value: 1}, {Key: "io.later.two", Critical: true, Value: "2"}, {Key: "io.later.three", Critical: true, Value: true}}}
 	if remote != nil {
 		req2.Signer = sims.NewRemote(ch)
 	}
@@ -501,6 +502,14 @@ func execute(r *core.Run, c *Case) {
 			return
 		}
 		r.Count("returned-bytes-stable", 1)
+		// ... and must not change what the first object holds either
+		if own, err := env.Verify(); err != nil {
+			fail("signer-object-broken-by-later-sign", "after another object signed, the first object no longer verifies: "+err.Error())
+			return
+		} else if d := envcmp.Compare(own, want); len(d) > 0 {
+			fail("signer-object-changed-by-later-sign:"+d[0].Sig, d[0].What)
+			return
+		}
 	}
 	r.Count("round-trips", 1)
 	r.Count("round-trips-"+mtName(c.MT), 1)
